@@ -116,6 +116,15 @@ class Spec:
         w = line.split()
         t, op, a = int(w[0]), w[1], w[2:]
         th = self.th(t)
+        # a background operation takes effect where the program waits for it (`bgEnd`): the programs that use them
+        # start them where the call blocks (a thread's first use of its channel while a drain is in progress)
+        if op in ("bgBegin", "bgAfter"):
+            if not hasattr(self, "bg"):
+                self.bg = {}
+            self.bg[t] = " ".join(a if op == "bgBegin" else a[1:])
+            return
+        if op == "bgEnd":
+            return self.apply("%d %s" % (t, self.bg.pop(t)), pos)
         # an `Event` built earlier (`evNew`, not a tracing call) and attached now is an event attached now
         if op == "evNew":
             return
